@@ -137,6 +137,23 @@ def sub(a, b):
     return add(a, neg(b))
 
 
+def _factors(t):
+    if t is None:
+        return []
+    if isinstance(t, S) and t[0] == "op" and t[1] == "mul":
+        return list(t[2:])
+    return [t]
+
+
+def _mono(t1, t2):
+    f = sorted(_factors(t1) + _factors(t2), key=_key)
+    if not f:
+        return None
+    if len(f) == 1:
+        return f[0]
+    return op("mul", *f)
+
+
 def mul(a, b):
     if not is_sym(a) and not is_sym(b):
         return a * b
@@ -150,13 +167,18 @@ def mul(a, b):
     for x, y in ((a, b), (b, a)):
         if is_sym(y) and y[0] == "op" and y[1] == "pow" and y[2] == 2:
             return shl(x, y[3])
-    if not is_sym(a) or not is_sym(b):
-        k, x = (a, b) if not is_sym(a) else (b, a)
-        if isinstance(k, (int, bool)):
-            t, c = _lin_parts(x)
-            return _mk_lin({tt: cc * k for tt, cc in t.items()}, c * k)
-    args = sorted([a, b], key=_key)
-    return op("mul", *args)
+    # polynomial normal form: distribute, monomials are sorted products of atoms
+    ta, ca = _lin_parts(a)
+    tb, cb = _lin_parts(b)
+    out = {}
+    const = ca * cb
+    for t1, c1 in list(ta.items()) + [(None, ca)]:
+        for t2, c2 in list(tb.items()) + [(None, cb)]:
+            if t1 is None and t2 is None:
+                continue
+            m = _mono(t1, t2)
+            out[m] = out.get(m, 0) + c1 * c2
+    return _mk_lin(out, const)
 
 
 def rep(x, n):
